@@ -1,5 +1,43 @@
 """Base class of a property check: generate a case, judge it, shrink and report."""
+import resource
+import signal
+
 from rtverif import lang
+
+
+class Watchdog(BaseException):
+    """Raised by SIGALRM when one case runs longer than the per-case wall-clock limit.
+    A firing is *inconclusive* for that case (counted, never a verdict by itself)."""
+
+
+def _alarm(signum, frame):
+    raise Watchdog()
+
+
+def limit_resources(mem_gb=6):
+    """Address-space cap: a runaway allocation inside rtamt becomes a MemoryError in this process
+    (an observable symptom) instead of an OOM kill of the whole check."""
+    try:
+        lim = int(mem_gb * (1 << 30))
+        resource.setrlimit(resource.RLIMIT_AS, (lim, lim))
+    except Exception:
+        pass
+    signal.signal(signal.SIGALRM, _alarm)
+
+
+def guarded(fn, seconds, *a):
+    """Run fn(*a) under the per-case watchdog; returns (result, timed_out)."""
+    signal.alarm(seconds)
+    try:
+        return fn(*a), False
+    except Watchdog:
+        return None, True
+    except MemoryError:
+        import gc
+        gc.collect()
+        return None, 'memory'
+    finally:
+        signal.alarm(0)
 
 
 class Verdict(object):
@@ -28,6 +66,7 @@ class Prop(object):
     thorough_cases = 100000
     shrink_budget = 200
     shrink_data = True
+    case_timeout = 30
 
     def gen(self, rng, ctx):
         raise NotImplementedError
@@ -45,7 +84,17 @@ class Prop(object):
 
     def check(self, ctx, case):
         case = self.normalise(case)
-        v = self.judge(case)
+        v, timed_out = guarded(self.judge, self.case_timeout, case)
+        if timed_out == 'memory':
+            ctx.violation('memory-exhausted', 'the case drove the process into its address-space cap (6 GB): %s' %
+                          repr(self.brief(case))[:500], self.brief(case), None)
+            return Verdict()
+        if timed_out:
+            ctx.skip('watchdog: case exceeded %d s (inconclusive)' % self.case_timeout)
+            ctx.count('watchdog')
+            if len(ctx.notes) < 5:
+                ctx.notes.append('watchdog fired on %s' % repr(self.brief(case))[:300])
+            return Verdict()
         if v.skip:
             ctx.skip(v.skip)
             return v
@@ -61,8 +110,12 @@ class Prop(object):
             key = known or ('NEW:' + mech)
             have = ctx.violations.get(key)
             if self.shrinkable(case) and (have is None or len(have['witnesses']) < 2):
-                small = self.shrink(case, mech)
-                v2 = self.judge(small)
+                small, t_o = guarded(self.shrink, 120, case, mech)
+                if t_o or small is None:
+                    small = case
+                v2, t_o = guarded(self.judge, self.case_timeout, small)
+                if t_o:
+                    v2, small = Verdict(), case
                 for m2, k2, msg2 in v2.viol:
                     if m2 == mech:
                         known, msg = k2, msg2
